@@ -701,3 +701,1463 @@ Proof. vm_compute. reflexivity. Qed.
 Example ex_dup_class_outside_domain :
   dom_C05 [SrcAttr (B "class") (AOne (SStr (B "a"))) false true; SrcAttr (B "class") (AOne (SStr (B "a"))) false true] = false.
 Proof. vm_compute. reflexivity. Qed.
+
+
+(* ====================================================================== source level: C05_spec, C05_class_merge,
+   C05_spread_order (appended; everything above is unchanged) *)
+From Coq Require Import Permutation Sorted.
+
+(* ---------- definitions used in the statements of C05_spec / C05_class_merge / C05_spread_order ----------
+   (kept here and not in Models/Attrs.v: that file is upstream of Tmpl/Runtime.v and so of most other properties' builds;
+   no existing definition changes) *)
+(* the reader of the property statement: the one the judge uses *)
+Definition read_attrs (s : bytes) : option (list (bytes * bytes)) := parse_attrs s.
+
+(* closed form of the joined class text: the pieces joined by one space, empty pieces dropped *)
+Definition cat_sp (a b : bytes) : bytes :=
+  match a, b with
+  | [], _ => b
+  | _, [] => a
+  | _, _ => a ++ sp ++ b
+  end.
+Definition joinne (l : list bytes) : bytes := fold_right cat_sp [] l.
+
+(* what one class entry contributes: a false entry and an empty text contribute nothing *)
+Definition cls_piece (t : tmpattr) : option bytes :=
+  match t_bool t with Some false => Some [] | _ => piece t end.
+
+(* the class text the property demands for the values given for class, in source order *)
+Definition class_text (vs : list aval) : bytes := joinne (flat_map class_tokens vs).
+
+(* __and_attrs on one key whose Member is o *)
+Definition and_rec (k : bytes) (o : obj) : attr_rec :=
+  match o with
+  | OBool b => {| a_name := k; a_val := if b then B "true" else B "false"; a_esc := true; a_bool := Some b |}
+  | ONil => {| a_name := k; a_val := []; a_esc := true; a_bool := Some false |}
+  | v => {| a_name := k; a_val := if is_class k then class_names v else obj_string v;
+            a_esc := true; a_bool := None |}
+  end.
+
+(* one array item of classNames *)
+Definition item_toks (item : obj) : list bytes :=
+  match item with
+  | ONil => []
+  | OBool false => []
+  | _ => match class_names item with [] => [] | n => [n] end
+  end.
+Definition item_text (item : obj) : bytes :=
+  match item with
+  | ONil => []
+  | OBool false => []
+  | _ => class_names item
+  end.
+
+(* Map.Keys before the repair F-C05-c: the Go map's iteration order *)
+Definition and_attrs_iter (m : gmap) : list attr_rec := map (and_attr_one m) (keys (m_items m)).
+
+(* src_ok without the restriction of unescaped attributes to string literals (F-C05-d) *)
+Definition src_ok_d (s : asrc) : bool :=
+  match s with
+  | SrcAttr n v esc lit => name_ok n && value_ok n v && aval_modelled lit v
+  | _ => src_ok s
+  end.
+
+(* the statement of C05_spec for one source list *)
+Definition spec_holds (srcs : list asrc) : Prop :=
+  exists text, model_attrs srcs = Some (Some text) /\ read_attrs text = Some (attr_spec srcs).
+
+(* ====================================================================== C05_spec *)
+(* ---------- joinne: join by one space, dropping empty pieces ---------- *)
+Lemma cat_sp_nil_r a : cat_sp a [] = a.
+Proof. destruct a; reflexivity. Qed.
+
+Lemma cat_sp_ne a b : a <> [] -> b <> [] -> cat_sp a b = a ++ sp ++ b.
+Proof. destruct a, b; intros Ha Hb; try congruence. reflexivity. Qed.
+
+Lemma cat_sp_nonnil_l a b : a <> [] -> cat_sp a b <> [].
+Proof. destruct a as [|x a]; [congruence|]. intros _. destruct b; discriminate. Qed.
+
+Lemma cat_sp_nonnil_r a b : b <> [] -> cat_sp a b <> [].
+Proof. destruct b as [|y b]; [congruence|]. intros _. destruct a; discriminate. Qed.
+
+Lemma cat_sp_assoc a b c : cat_sp (cat_sp a b) c = cat_sp a (cat_sp b c).
+Proof.
+  destruct a as [|x a]; [reflexivity|].
+  destruct b as [|y b]; [reflexivity|].
+  destruct c as [|z c].
+  - rewrite !cat_sp_nil_r. reflexivity.
+  - rewrite (cat_sp_ne (x :: a) (y :: b)) by discriminate.
+    rewrite (cat_sp_ne (y :: b) (z :: c)) by discriminate.
+    rewrite cat_sp_ne; [|discriminate|discriminate].
+    rewrite cat_sp_ne; [|discriminate|discriminate].
+    rewrite <- !app_assoc. reflexivity.
+Qed.
+
+Lemma joinne_app l1 l2 : joinne (l1 ++ l2) = cat_sp (joinne l1) (joinne l2).
+Proof.
+  induction l1 as [|x l1 IH]; [reflexivity|].
+  simpl. rewrite IH, cat_sp_assoc. reflexivity.
+Qed.
+
+Lemma joinne_flat_map {A} (f : A -> list bytes) l :
+  joinne (flat_map f l) = joinne (map (fun x => joinne (f x)) l).
+Proof.
+  induction l as [|x l IH]; [reflexivity|].
+  simpl. rewrite joinne_app, IH. reflexivity.
+Qed.
+
+Definition nonnil (x : bytes) : bool := negb (is_nil x).
+
+Lemma nonnil_spec x : nonnil x = true <-> x <> [].
+Proof.
+  destruct x; unfold nonnil; simpl; split; intros H; try discriminate; try reflexivity.
+  exfalso. apply H. reflexivity.
+Qed.
+
+Lemma joinne_nonnil l : forallb nonnil l = true -> l <> [] -> joinne l <> [].
+Proof.
+  destruct l as [|x l]; [intros _ H; congruence|]. simpl. intros H _.
+  apply andb_true_iff in H. destruct H as [Hx _].
+  apply cat_sp_nonnil_l, nonnil_spec, Hx.
+Qed.
+
+Lemma join_joinne l : forallb nonnil l = true -> join sp l = joinne l.
+Proof.
+  induction l as [|x l IH]; [reflexivity|].
+  intros H. simpl in H. apply andb_true_iff in H. destruct H as [Hx Hl].
+  destruct l as [|y l].
+  - simpl. rewrite cat_sp_nil_r. reflexivity.
+  - change (join sp (x :: y :: l)) with (x ++ sp ++ join sp (y :: l)).
+    change (joinne (x :: y :: l)) with (cat_sp x (joinne (y :: l))).
+    rewrite (IH Hl). rewrite cat_sp_ne; [reflexivity|apply nonnil_spec, Hx|].
+    apply joinne_nonnil; [exact Hl|discriminate].
+Qed.
+
+Lemma forallb_app_true {A} (f : A -> bool) l1 l2 :
+  forallb f l1 = true -> forallb f l2 = true -> forallb f (l1 ++ l2) = true.
+Proof. intros H1 H2. rewrite forallb_app, H1, H2. reflexivity. Qed.
+
+Lemma forallb_flat_map {A B} (f : B -> bool) (g : A -> list B) l :
+  (forall x, In x l -> forallb f (g x) = true) -> forallb f (flat_map g l) = true.
+Proof.
+  induction l as [|x l IH]; intros H; [reflexivity|].
+  simpl. apply forallb_app_true; [apply H; left; reflexivity|].
+  apply IH. intros y Hy. apply H. right. exact Hy.
+Qed.
+
+(* ---------- escaping commutes with joining ---------- *)
+Lemma escape_nonnil s : s <> [] -> escape s <> [].
+Proof.
+  destruct s as [|c s]; [congruence|]. intros _.
+  change (escape (c :: s)) with (esc_char c ++ escape s).
+  unfold esc_char.
+  destruct (Ascii.eqb c """"); [discriminate|].
+  destruct (Ascii.eqb c "'"); [discriminate|].
+  destruct (Ascii.eqb c "&"); [discriminate|].
+  destruct (Ascii.eqb c "<"); [discriminate|].
+  destruct (Ascii.eqb c ">"); discriminate.
+Qed.
+
+Lemma escape_cat_sp a b : escape (cat_sp a b) = cat_sp (escape a) (escape b).
+Proof.
+  destruct a as [|x a]; [reflexivity|].
+  destruct b as [|y b].
+  - rewrite !cat_sp_nil_r. reflexivity.
+  - rewrite cat_sp_ne by discriminate.
+    rewrite cat_sp_ne by (apply escape_nonnil; discriminate).
+    rewrite !escape_app. reflexivity.
+Qed.
+
+Lemma escape_joinne l : escape (joinne l) = joinne (map escape l).
+Proof.
+  induction l as [|x l IH]; [reflexivity|].
+  simpl. rewrite escape_cat_sp, IH. reflexivity.
+Qed.
+
+Lemma no_nul_app a b : no_nul a = true -> no_nul b = true -> no_nul (a ++ b) = true.
+Proof. unfold no_nul. apply forallb_app_true. Qed.
+
+Lemma no_nul_cat_sp a b : no_nul a = true -> no_nul b = true -> no_nul (cat_sp a b) = true.
+Proof.
+  intros Ha Hb. destruct a as [|x a]; [exact Hb|]. destruct b as [|y b]; [exact Ha|].
+  rewrite cat_sp_ne by discriminate. apply no_nul_app; [exact Ha|]. apply no_nul_app; [reflexivity|exact Hb].
+Qed.
+
+Lemma no_nul_joinne l : forallb no_nul l = true -> no_nul (joinne l) = true.
+Proof.
+  induction l as [|x l IH]; [reflexivity|]. simpl. intros H.
+  apply andb_true_iff in H. destruct H as [Hx Hl]. apply no_nul_cat_sp; [exact Hx|apply IH, Hl].
+Qed.
+
+(* ---------- the class text __attrs renders, in closed form (C05_class_merge) ---------- *)
+Lemma class_merge vals : forall ps tmp,
+  map cls_piece vals = map Some ps ->
+  attr_value true vals tmp = AText (cat_sp tmp (joinne ps)).
+Proof.
+  induction vals as [|v vals IH]; intros ps tmp H.
+  - destruct ps; [|discriminate]. simpl. rewrite cat_sp_nil_r. reflexivity.
+  - destruct ps as [|p ps]; [discriminate|]. simpl in H. inversion H as [[Hp Hps]]. clear H.
+    change (joinne (p :: ps)) with (cat_sp p (joinne ps)).
+    simpl. unfold cls_piece in Hp.
+    assert (Hskip : p = [] -> attr_value true vals tmp = AText (cat_sp tmp (cat_sp p (joinne ps)))).
+    { intros ->. rewrite (IH ps tmp Hps). reflexivity. }
+    assert (Htext : piece v = Some p ->
+            (if true && is_nil p then attr_value true vals tmp
+             else attr_value true vals ((match tmp with [] => [] | _ => tmp ++ sp end) ++ p))
+            = AText (cat_sp tmp (cat_sp p (joinne ps)))).
+    { intros _. destruct p as [|c p]; [apply Hskip; reflexivity|]. simpl andb. cbv iota.
+      rewrite (IH ps _ Hps). rewrite <- cat_sp_assoc. f_equal. f_equal.
+      destruct tmp as [|t tmp]; [reflexivity|].
+      rewrite cat_sp_ne by discriminate. rewrite <- app_assoc. reflexivity. }
+    destruct (t_bool v) as [[|]|].
+    + rewrite Hp. apply Htext, Hp.
+    + apply Hskip. congruence.
+    + rewrite Hp. apply Htext, Hp.
+Qed.
+
+(* ---------- decimal digits are plain characters ---------- *)
+Lemma digit_plain m : (m < 10)%N -> plain (digit m) = true.
+Proof.
+  intros H. destruct m as [|p]; [reflexivity|].
+  do 4 (try destruct p as [p|p|]); try reflexivity; exfalso; lia.
+Qed.
+
+Lemma show_N_fuel_plain fuel : forall n acc,
+  forallb plain acc = true -> forallb plain (show_N_fuel fuel n acc) = true.
+Proof.
+  induction fuel as [|f IH]; intros n acc H; [exact H|].
+  simpl.
+  assert (Hd : forallb plain (digit (n mod 10) :: acc) = true).
+  { simpl. rewrite H, digit_plain; [reflexivity|]. apply N.mod_lt. discriminate. }
+  destruct (N.ltb n 10); [exact Hd|]. apply IH, Hd.
+Qed.
+
+Lemma show_Z_plain z : forallb plain (show_Z z) = true.
+Proof.
+  destruct z as [|p|p]; [reflexivity| |].
+  - apply show_N_fuel_plain. reflexivity.
+  - simpl. apply show_N_fuel_plain. reflexivity.
+Qed.
+
+Lemma show_N_fuel_nonnil fuel : forall n acc, acc <> [] -> show_N_fuel fuel n acc <> [].
+Proof.
+  induction fuel as [|f IH]; intros n acc H; [exact H|].
+  simpl. destruct (N.ltb n 10); [discriminate|]. apply IH. discriminate.
+Qed.
+
+Lemma show_Z_nonnil z : show_Z z <> [].
+Proof.
+  destruct z as [|p|p]; [discriminate| |discriminate].
+  unfold show_Z, show_N. simpl show_N_fuel.
+  destruct (N.ltb (N.pos p) 10); [discriminate|]. apply show_N_fuel_nonnil. discriminate.
+Qed.
+
+Lemma plain_no_nul s : forallb plain s = true -> no_nul s = true.
+Proof.
+  intros H. unfold no_nul. rewrite forallb_forall in *. intros c Hc. specialize (H c Hc).
+  destruct (Ascii.eqb c zero) eqn:E; [|reflexivity]. apply Ascii.eqb_eq in E. subst c. discriminate.
+Qed.
+
+(* ---------- classNames in closed form ---------- *)
+Lemma class_names_arr_unfold l : class_names (OArr l) = join sp (flat_map item_toks l).
+Proof. reflexivity. Qed.
+
+Lemma item_toks_nonnil item : forallb nonnil (item_toks item) = true.
+Proof.
+  unfold item_toks.
+  assert (H : forallb nonnil (match class_names item with [] => [] | n => [n] end) = true)
+    by (destruct (class_names item); reflexivity).
+  destruct item as [s|z|[|]| |l]; try exact H; reflexivity.
+Qed.
+
+Lemma item_toks_text item : joinne (item_toks item) = item_text item.
+Proof.
+  unfold item_toks, item_text.
+  assert (H : joinne (match class_names item with [] => [] | n => [n] end) = class_names item)
+    by (destruct (class_names item); reflexivity).
+  destruct item as [s|z|[|]| |l]; try exact H; reflexivity.
+Qed.
+
+Lemma class_names_arr l : class_names (OArr l) = joinne (map item_text l).
+Proof.
+  rewrite class_names_arr_unfold, join_joinne.
+  - rewrite joinne_flat_map. f_equal. apply map_ext. intros item. apply item_toks_text.
+  - apply forallb_flat_map. intros item _. apply item_toks_nonnil.
+Qed.
+
+(* tokens of a class value in the domain: non-empty, without NUL *)
+Definition tok_ok (t : bytes) : bool := nonnil t && no_nul t.
+
+Lemma scalar_tokens_ok s : scalar_ok s = true -> forallb tok_ok (scalar_tokens s) = true.
+Proof.
+  destruct s as [s|z|b| |]; intros H; try reflexivity.
+  - destruct s as [|c s]; [reflexivity|]. simpl in *. unfold tok_ok. simpl nonnil.
+    simpl. simpl in H. rewrite H. reflexivity.
+  - simpl. unfold tok_ok. rewrite (plain_no_nul _ (show_Z_plain z)).
+    destruct (show_Z z) eqn:E; [exfalso; exact (show_Z_nonnil z E)|reflexivity].
+Qed.
+
+Lemma class_scalar_ok_scalar s : class_scalar_ok s = true -> scalar_ok s = true.
+Proof. unfold class_scalar_ok. intros H. apply andb_true_iff in H. apply H. Qed.
+
+Lemma class_tokens_ok v :
+  forallb class_scalar_ok (aval_scalars v) = true -> forallb tok_ok (class_tokens v) = true.
+Proof.
+  intros H. unfold class_tokens. apply forallb_flat_map. intros s Hs.
+  apply scalar_tokens_ok, class_scalar_ok_scalar. rewrite forallb_forall in H. apply H, Hs.
+Qed.
+
+Lemma tok_ok_nonnil l : forallb tok_ok l = true -> forallb nonnil l = true.
+Proof.
+  rewrite !forallb_forall. intros H x Hx. specialize (H x Hx). unfold tok_ok in H.
+  apply andb_true_iff in H. apply H.
+Qed.
+
+Lemma tok_ok_no_nul l : forallb tok_ok l = true -> forallb no_nul l = true.
+Proof.
+  rewrite !forallb_forall. intros H x Hx. specialize (H x Hx). unfold tok_ok in H.
+  apply andb_true_iff in H. apply H.
+Qed.
+
+Lemma item_text_scalar s :
+  class_scalar_ok s = true -> item_text (scalar_obj s) = joinne (scalar_tokens s).
+Proof.
+  destruct s as [s|z|[|]| |]; intros H; try reflexivity; try discriminate.
+  - destruct s; reflexivity.
+  - simpl. rewrite cat_sp_nil_r. reflexivity.
+Qed.
+
+Lemma item_text_aval v :
+  forallb class_scalar_ok (aval_scalars v) = true -> item_text (aval_obj v) = joinne (class_tokens v).
+Proof.
+  destruct v as [s|l]; intros H.
+  - simpl in H. apply andb_true_iff in H. destruct H as [H _].
+    unfold class_tokens. simpl. rewrite app_nil_r. apply item_text_scalar, H.
+  - simpl in H. change (item_text (aval_obj (AArr l))) with (class_names (OArr (map scalar_obj l))).
+    rewrite class_names_arr, map_map. unfold class_tokens. simpl aval_scalars.
+    rewrite joinne_flat_map. f_equal. apply map_ext_in. intros s Hs.
+    apply item_text_scalar. rewrite forallb_forall in H. apply H, Hs.
+Qed.
+
+(* the class text of a value that is not false/null/undefined (these become bool records) *)
+Lemma class_names_item o :
+  match o with OBool _ => False | ONil => False | _ => True end -> class_names o = item_text o.
+Proof. destruct o; intros H; try reflexivity; destruct H. Qed.
+
+Lemma flat_map_flat_map {A B C} (f : B -> list C) (g : A -> list B) l :
+  flat_map f (flat_map g l) = flat_map (fun x => flat_map f (g x)) l.
+Proof.
+  induction l as [|x l IH]; [reflexivity|]. simpl. rewrite flat_map_app, IH. reflexivity.
+Qed.
+
+(* the values of a repeated class attribute of a mixin call: __op__map_params makes an array of them *)
+Lemma class_names_group vs :
+  Forall (fun v => forallb class_scalar_ok (aval_scalars v) = true) vs ->
+  class_names (OArr (map aval_obj vs)) = joinne (class_tokens (AArr (flat_map aval_scalars vs))).
+Proof.
+  intros H. rewrite class_names_arr, map_map.
+  unfold class_tokens at 1. simpl aval_scalars. rewrite flat_map_flat_map.
+  rewrite joinne_flat_map. f_equal. apply map_ext_in. intros v Hv.
+  rewrite Forall_forall in H. apply item_text_aval, H, Hv.
+Qed.
+
+(* ---------- what one record means for the source value it was made from ---------- *)
+Definition olist (n : bytes) (o : option bytes) : list (bytes * bytes) :=
+  match o with Some v => [(n, v)] | None => [] end.
+
+Definition rec_sem (kv : bytes * aval) (a : attr_rec) : Prop :=
+  a_name a = fst kv /\ rec_okb a = true /\
+  (is_class (fst kv) = true ->
+   cls_piece (to_tmp a) = Some (escape (joinne (class_tokens (snd kv))))) /\
+  (is_class (fst kv) = false ->
+   decode (item_of (fst kv) [to_tmp a]) = olist (fst kv) (value_text (fst kv) (snd kv))).
+
+(* an escaped text record *)
+Lemma sem_text k v x :
+  name_ok k = true -> no_nul x = true ->
+  (is_class k = true -> x = joinne (class_tokens v)) ->
+  (is_class k = false -> value_text k v = Some x) ->
+  rec_sem (k, v) {| a_name := k; a_val := x; a_esc := true; a_bool := None |}.
+Proof.
+  intros Hk Hx Hc Hn. unfold rec_sem. simpl fst. simpl snd. simpl a_name.
+  split; [reflexivity|]. split.
+  { unfold rec_okb. simpl. rewrite Hk. reflexivity. }
+  split.
+  - intros C. unfold cls_piece, to_tmp, piece. simpl.
+    rewrite go_escape_no_nul by exact Hx. rewrite (Hc C). reflexivity.
+  - intros C. rewrite (Hn C). unfold item_of, to_tmp. rewrite C. simpl.
+    rewrite go_escape_no_nul by exact Hx. rewrite unesc_escape. reflexivity.
+Qed.
+
+(* a record for false / null / undefined *)
+Lemma sem_false k v x e :
+  name_ok k = true ->
+  (is_class k = true -> class_tokens v = []) ->
+  (is_class k = false -> value_text k v = None) ->
+  rec_sem (k, v) {| a_name := k; a_val := x; a_esc := e; a_bool := Some false |}.
+Proof.
+  intros Hk Hc Hn. unfold rec_sem. simpl fst. simpl snd. simpl a_name.
+  split; [reflexivity|]. split.
+  { unfold rec_okb. simpl. rewrite Hk. reflexivity. }
+  split.
+  - intros C. rewrite (Hc C). reflexivity.
+  - intros C. rewrite (Hn C). unfold item_of, to_tmp. rewrite C. reflexivity.
+Qed.
+
+(* a record for true under a name other than class *)
+Lemma sem_true k v x e :
+  name_ok k = true -> is_class k = false -> value_text k v = Some k ->
+  rec_sem (k, v) {| a_name := k; a_val := x; a_esc := e; a_bool := Some true |}.
+Proof.
+  intros Hk C Hn. unfold rec_sem. simpl fst. simpl snd. simpl a_name.
+  split; [reflexivity|]. split.
+  { unfold rec_okb. simpl. rewrite Hk. reflexivity. }
+  split; [rewrite C; discriminate|]. intros _. rewrite Hn.
+  pose proof (name_ok_plain k Hk) as Hp.
+  unfold item_of, to_tmp. rewrite C. simpl. unfold piece. simpl.
+  destruct e; simpl.
+  - rewrite (go_escape_plain _ Hp), (unesc_plain _ Hp). reflexivity.
+  - change (B """") with [""""%char]. simpl.
+    destruct k as [|c r]; [discriminate|]. simpl. rewrite removelast_last.
+    destruct (r ++ [""""%char]) eqn:X; [destruct r; discriminate|].
+    simpl. rewrite (unesc_plain _ Hp). reflexivity.
+Qed.
+
+(* the quoted text of an unescaped string literal (pug's .class / #id shorthand) *)
+Lemma sem_quoted k s :
+  name_ok k = true -> forallb plain s = true ->
+  rec_sem (k, AOne (SStr s))
+          {| a_name := k; a_val := B """" ++ s ++ B """"; a_esc := false; a_bool := None |}.
+Proof.
+  intros Hk Hs. unfold rec_sem. simpl fst. simpl snd. simpl a_name.
+  assert (Hpiece : piece {| t_esc := false; t_val := B """" ++ s ++ B """"; t_bool := None |} = Some s).
+  { unfold piece. simpl. change (B """") with [""""%char]. rewrite removelast_last.
+    destruct (s ++ [""""%char]) eqn:X; [destruct s; discriminate|reflexivity]. }
+  split; [reflexivity|]. split.
+  { unfold rec_okb, tmp_okb, to_tmp. simpl. rewrite Hk. simpl.
+    change (B """") with [""""%char]. rewrite removelast_last, Hs.
+    destruct (s ++ [""""%char]) eqn:X; [destruct s; discriminate|reflexivity]. }
+  split.
+  - intros _.
+    change (cls_piece (to_tmp {| a_name := k; a_val := B """" ++ s ++ B """"; a_esc := false; a_bool := None |}))
+      with (piece {| t_esc := false; t_val := B """" ++ s ++ B """"; t_bool := None |}).
+    rewrite Hpiece. f_equal.
+    unfold class_tokens. simpl. rewrite app_nil_r.
+    destruct s as [|c s]; [reflexivity|].
+    change (joinne [c :: s]) with (c :: s).
+    symmetry. apply escape_plain, Hs.
+  - intros C. unfold item_of. rewrite C.
+    change (to_tmp {| a_name := k; a_val := B """" ++ s ++ B """"; a_esc := false; a_bool := None |})
+      with {| t_esc := false; t_val := B """" ++ s ++ B """"; t_bool := None |}.
+    unfold attr_value. simpl t_bool. cbv iota.
+    rewrite Hpiece. simpl. rewrite (unesc_plain _ Hs). reflexivity.
+Qed.
+
+(* class tokens of a single scalar *)
+Lemma class_tokens_one s : class_tokens (AOne s) = scalar_tokens s.
+Proof. unfold class_tokens. simpl. apply app_nil_r. Qed.
+
+Lemma joinne_str s : joinne (scalar_tokens (SStr s)) = s.
+Proof. destruct s; [reflexivity|]. simpl. reflexivity. Qed.
+
+Lemma joinne_num z : joinne (scalar_tokens (SNum z)) = show_Z z.
+Proof. simpl. apply cat_sp_nil_r. Qed.
+
+Lemma no_nul_class_text v :
+  forallb class_scalar_ok (aval_scalars v) = true -> no_nul (joinne (class_tokens v)) = true.
+Proof. intros H. apply no_nul_joinne, tok_ok_no_nul, class_tokens_ok, H. Qed.
+
+(* __and_attrs: the record of key k whose member is the object of the source value v *)
+Lemma sem_and_rec k v :
+  name_ok k = true -> value_ok k v = true -> rec_sem (k, v) (and_rec k (aval_obj v)).
+Proof.
+  intros Hk Hv. unfold value_ok in Hv.
+  destruct (is_class k) eqn:C.
+  - (* class *)
+    pose proof (no_nul_class_text v Hv) as Hnn.
+    pose proof (item_text_aval v Hv) as Hit.
+    destruct v as [s|l].
+    + simpl in Hv. apply andb_true_iff in Hv. destruct Hv as [Hs _].
+      destruct s as [s|z|[|]| |]; simpl; try discriminate.
+      * rewrite C. apply sem_text; [exact Hk|apply class_scalar_ok_scalar in Hs; exact Hs| |intros X; congruence].
+        intros _. rewrite class_tokens_one, joinne_str. reflexivity.
+      * rewrite C. apply sem_text; [exact Hk|apply plain_no_nul, show_Z_plain| |intros X; congruence].
+        intros _. rewrite class_tokens_one, joinne_num. reflexivity.
+      * apply sem_false; [assumption|reflexivity|intros X; congruence].
+      * apply sem_false; [assumption|reflexivity|intros X; congruence].
+      * apply sem_false; [assumption|reflexivity|intros X; congruence].
+    + simpl and_rec. rewrite C. apply sem_text; [exact Hk| | |intros X; congruence].
+      * rewrite <- Hit in Hnn. exact Hnn.
+      * intros _. rewrite <- Hit. reflexivity.
+  - (* any other name: one scalar *)
+    destruct v as [s|l]; [|discriminate].
+    destruct s as [s|z|[|]| |]; simpl; try rewrite C.
+    + apply sem_text; [exact Hk|exact Hv|intros X; congruence|reflexivity].
+    + apply sem_text; [exact Hk|apply plain_no_nul, show_Z_plain|intros X; congruence|reflexivity].
+    + apply sem_true; [assumption|assumption|reflexivity].
+    + apply sem_false; [assumption|intros X; congruence|reflexivity].
+    + apply sem_false; [assumption|intros X; congruence|reflexivity].
+    + apply sem_false; [assumption|intros X; congruence|reflexivity].
+Qed.
+
+(* __attr on the value the executor computes for the expression *)
+Lemma mk_attr_and_rec k lit v :
+  mk_attr k (aval_gval lit v) true =
+  match v with
+  | AOne (SBool b) => bool_rec k b
+  | AOne SNull => bool_rec k false
+  | AOne SUndef => bool_rec k false
+  | _ => and_rec k (aval_obj v)
+  end.
+Proof.
+  destruct v as [s|l]; [|reflexivity].
+  destruct s as [s|z|b| |]; destruct lit; try reflexivity.
+  - simpl. destruct (is_class k); reflexivity.
+  - simpl. destruct (is_class k); reflexivity.
+Qed.
+
+Lemma sem_lower_attr k v esc lit :
+  name_ok k = true -> value_ok k v = true ->
+  (esc || (lit && match v with AOne (SStr s) => forallb plain s | _ => false end)) = true ->
+  rec_sem (k, v) (lower_attr k v esc lit).
+Proof.
+  intros Hk Hv He. unfold lower_attr. destruct esc.
+  - rewrite mk_attr_and_rec.
+    pose proof (sem_and_rec k v Hk Hv) as Hand.
+    destruct v as [s|l]; [|exact Hand].
+    destruct s as [s|z|b| |]; try exact Hand.
+    (* null / undefined: the same reading as the spread record; left: a boolean literal or datum *)
+    + unfold bool_rec. unfold value_ok in Hv. destruct (is_class k) eqn:C.
+      * simpl in Hv. destruct b; [discriminate|].
+        apply sem_false; [assumption|reflexivity|intros X; congruence].
+      * destruct b; [apply sem_true; [assumption|assumption|reflexivity]|].
+        apply sem_false; [assumption|intros X; congruence|reflexivity].
+  - simpl in He. destruct lit; [|discriminate]. simpl in He.
+    destruct v as [s|l]; [|discriminate]. destruct s as [s|z|b| |]; try discriminate.
+    simpl. apply sem_quoted; assumption.
+Qed.
+
+(* ---------- the bytewise order and the two insertion sorts ---------- *)
+Definition ble (a b : bytes) : Prop := bleb a b = true.
+
+Lemma N_of_ascii_inj x y : N_of_ascii x = N_of_ascii y -> x = y.
+Proof. intros H. rewrite <- (ascii_N_embedding x), <- (ascii_N_embedding y), H. reflexivity. Qed.
+
+Lemma bleb_total a : forall b, bleb a b = false -> bleb b a = true.
+Proof.
+  induction a as [|x a IH]; intros b H; [discriminate|].
+  destruct b as [|y b]; [reflexivity|]. simpl in *.
+  destruct (N.ltb (N_of_ascii x) (N_of_ascii y)) eqn:Exy; [discriminate|].
+  destruct (N.ltb (N_of_ascii y) (N_of_ascii x)) eqn:Eyx; [reflexivity|].
+  apply IH, H.
+Qed.
+
+Lemma bleb_antisym a : forall b, bleb a b = true -> bleb b a = true -> a = b.
+Proof.
+  induction a as [|x a IH]; intros b Hab Hba.
+  - destruct b; [reflexivity|discriminate].
+  - destruct b as [|y b]; [discriminate|]. simpl in *.
+    destruct (N.ltb (N_of_ascii x) (N_of_ascii y)) eqn:Exy;
+    destruct (N.ltb (N_of_ascii y) (N_of_ascii x)) eqn:Eyx; try discriminate.
+    + apply N.ltb_lt in Exy. apply N.ltb_lt in Eyx. lia.
+    + apply N.ltb_ge in Exy. apply N.ltb_ge in Eyx.
+      assert (E : x = y) by (apply N_of_ascii_inj; lia). subst y.
+      f_equal. apply IH; assumption.
+Qed.
+
+Lemma bleb_trans a : forall b c, bleb a b = true -> bleb b c = true -> bleb a c = true.
+Proof.
+  induction a as [|x a IH]; intros b c Hab Hbc; [reflexivity|].
+  destruct b as [|y b]; [discriminate|]. destruct c as [|z c]; [discriminate|].
+  simpl in *.
+  destruct (N.ltb (N_of_ascii x) (N_of_ascii y)) eqn:Exy;
+  destruct (N.ltb (N_of_ascii y) (N_of_ascii x)) eqn:Eyx;
+  destruct (N.ltb (N_of_ascii y) (N_of_ascii z)) eqn:Eyz;
+  destruct (N.ltb (N_of_ascii z) (N_of_ascii y)) eqn:Ezy;
+  destruct (N.ltb (N_of_ascii x) (N_of_ascii z)) eqn:Exz;
+  destruct (N.ltb (N_of_ascii z) (N_of_ascii x)) eqn:Ezx;
+  try discriminate; try reflexivity;
+  rewrite ?N.ltb_lt, ?N.ltb_ge in *; try lia.
+  apply (IH b c); assumption.
+Qed.
+
+Lemma sorted_perm_eq l1 : forall l2,
+  StronglySorted ble l1 -> StronglySorted ble l2 -> Permutation l1 l2 -> l1 = l2.
+Proof.
+  induction l1 as [|a l1 IH]; intros l2 S1 S2 P.
+  - apply Permutation_nil in P. subst. reflexivity.
+  - destruct l2 as [|y l2]; [apply Permutation_sym, Permutation_nil in P; discriminate|].
+    inversion S1 as [|? ? S1' F1]; subst. inversion S2 as [|? ? S2' F2]; subst.
+    rewrite Forall_forall in F1, F2.
+    assert (E : a = y).
+    { assert (Ha : In a (y :: l2)) by (apply (Permutation_in a P); left; reflexivity).
+      assert (Hy : In y (a :: l1)) by (apply (Permutation_in y (Permutation_sym P)); left; reflexivity).
+      destruct Ha as [Ha|Ha]; [congruence|]. destruct Hy as [Hy|Hy]; [congruence|].
+      apply bleb_antisym; [apply F1, Hy|apply F2, Ha]. }
+    subst y. f_equal. apply IH; [assumption|assumption|]. apply (Permutation_cons_inv P).
+Qed.
+
+Lemma ins_sorted_perm x l : Permutation (x :: l) (ins_sorted x l).
+Proof.
+  induction l as [|y l IH]; simpl; [reflexivity|].
+  destruct (bleb x y); [reflexivity|].
+  apply perm_trans with (y :: x :: l); [apply perm_swap|apply perm_skip, IH].
+Qed.
+
+Lemma ins_sorted_sorted x l : StronglySorted ble l -> StronglySorted ble (ins_sorted x l).
+Proof.
+  induction l as [|y l IH]; intros S; simpl.
+  - constructor; constructor.
+  - inversion S as [|? ? S' F]; subst. rewrite Forall_forall in F.
+    destruct (bleb x y) eqn:E.
+    + constructor; [exact S|]. constructor; [exact E|].
+      apply Forall_forall. intros z Hz. apply (bleb_trans x y z); [exact E|apply F, Hz].
+    + constructor; [apply IH, S'|]. apply Forall_forall. intros z Hz.
+      apply (Permutation_in z (Permutation_sym (ins_sorted_perm x l))) in Hz.
+      destruct Hz as [<-|Hz]; [apply bleb_total, E|apply F, Hz].
+Qed.
+
+Lemma sort_bytes_perm l : Permutation l (sort_bytes l).
+Proof.
+  induction l as [|x l IH]; [constructor|].
+  change (sort_bytes (x :: l)) with (ins_sorted x (sort_bytes l)).
+  apply perm_trans with (x :: sort_bytes l); [apply perm_skip, IH|apply ins_sorted_perm].
+Qed.
+
+Lemma sort_bytes_sorted l : StronglySorted ble (sort_bytes l).
+Proof.
+  induction l as [|x l IH]; [constructor|].
+  change (sort_bytes (x :: l)) with (ins_sorted x (sort_bytes l)). apply ins_sorted_sorted, IH.
+Qed.
+
+Lemma sort_bytes_unique l l' : Permutation l l' -> sort_bytes l = sort_bytes l'.
+Proof.
+  intros P. apply sorted_perm_eq; try apply sort_bytes_sorted.
+  apply perm_trans with l; [apply Permutation_sym, sort_bytes_perm|].
+  apply perm_trans with l'; [exact P|apply sort_bytes_perm].
+Qed.
+
+Lemma ins_kv_perm {A} (x : bytes * A) l : Permutation (x :: l) (ins_kv x l).
+Proof.
+  induction l as [|y l IH]; simpl; [reflexivity|].
+  destruct (bleb (fst y) (fst x)); [|reflexivity].
+  apply perm_trans with (y :: x :: l); [apply perm_swap|apply perm_skip, IH].
+Qed.
+
+Lemma ins_kv_sorted {A} (x : bytes * A) l :
+  StronglySorted ble (map fst l) -> StronglySorted ble (map fst (ins_kv x l)).
+Proof.
+  induction l as [|y l IH]; intros S; simpl.
+  - constructor; constructor.
+  - simpl in S. inversion S as [|? ? S' F]; subst. rewrite Forall_forall in F.
+    destruct (bleb (fst y) (fst x)) eqn:E; simpl.
+    + constructor; [apply IH, S'|]. apply Forall_forall. intros z Hz.
+      apply in_map_iff in Hz. destruct Hz as [w [<- Hw]].
+      apply (Permutation_in w (Permutation_sym (ins_kv_perm x l))) in Hw.
+      destruct Hw as [<-|Hw]; [exact E|]. apply F, in_map, Hw.
+    + apply bleb_total in E. constructor; [exact S|]. constructor; [exact E|].
+      apply Forall_forall. intros z Hz. apply (bleb_trans _ (fst y) z); [exact E|apply F, Hz].
+Qed.
+
+Lemma sort_kv_gen {A} (l : list (bytes * A)) : forall acc,
+  StronglySorted ble (map fst acc) ->
+  StronglySorted ble (map fst (fold_left (fun acc x => ins_kv x acc) l acc))
+  /\ Permutation (acc ++ l) (fold_left (fun acc x => ins_kv x acc) l acc).
+Proof.
+  induction l as [|x l IH]; intros acc S; simpl.
+  - rewrite app_nil_r. split; [exact S|reflexivity].
+  - destruct (IH (ins_kv x acc) (ins_kv_sorted x acc S)) as [S' P]. split; [exact S'|].
+    apply perm_trans with (ins_kv x acc ++ l); [|exact P].
+    apply perm_trans with ((x :: acc) ++ l); [apply Permutation_sym, Permutation_middle|].
+    apply Permutation_app_tail, ins_kv_perm.
+Qed.
+
+Lemma sort_kv_sorted {A} (l : list (bytes * A)) : StronglySorted ble (map fst (sort_kv l)).
+Proof. apply (sort_kv_gen l []). constructor. Qed.
+
+Lemma sort_kv_perm {A} (l : list (bytes * A)) : Permutation l (sort_kv l).
+Proof. apply (sort_kv_gen l []). constructor. Qed.
+
+(* Map.Keys of an unordered map = the names of the entries sorted by name *)
+Lemma sort_keys_kv {A} (l : list (bytes * A)) : sort_bytes (map fst l) = map fst (sort_kv l).
+Proof.
+  apply sorted_perm_eq; [apply sort_bytes_sorted|apply sort_kv_sorted|].
+  apply perm_trans with (map fst l); [apply Permutation_sym, sort_bytes_perm|].
+  apply Permutation_map, sort_kv_perm.
+Qed.
+
+(* ---------- maps as association lists ---------- *)
+Lemma NoDup_lookup {A} (l : list (bytes * A)) k v :
+  NoDup (map fst l) -> In (k, v) l -> lookup k l = Some v.
+Proof.
+  induction l as [|[k' v'] l IH]; intros ND Hin; [destruct Hin|].
+  simpl in ND. inversion ND as [|? ? Hni ND']; subst. simpl.
+  destruct Hin as [E|Hin].
+  - inversion E; subst. rewrite beqb_refl. reflexivity.
+  - destruct (beqb k k') eqn:E; [|apply IH; assumption].
+    apply beqb_eq in E. subst k'. exfalso. apply Hni.
+    change k with (fst (k, v)). apply in_map, Hin.
+Qed.
+
+Lemma lookup_map_snd {A B} (f : A -> B) (l : list (bytes * A)) k :
+  lookup k (map (fun kv => (fst kv, f (snd kv))) l) = option_map f (lookup k l).
+Proof.
+  induction l as [|[k' v'] l IH]; [reflexivity|]. simpl.
+  destruct (beqb k k'); [reflexivity|exact IH].
+Qed.
+
+Lemma nodupb_NoDup l : nodupb l = true -> NoDup l.
+Proof.
+  induction l as [|x l IH]; intros H; [constructor|].
+  simpl in H. apply andb_true_iff in H. destruct H as [Hx Hl].
+  constructor; [|apply IH, Hl]. apply mem_false_In. destruct (mem x l); [discriminate|reflexivity].
+Qed.
+
+Lemma lookup_fold_insert_notin {A} (l : list (bytes * A)) k : forall acc,
+  ~ In k (map fst l) ->
+  lookup k (fold_left (fun acc kv => insert (fst kv) (snd kv) acc) l acc) = lookup k acc.
+Proof.
+  induction l as [|[k' v'] l IH]; intros acc H; [reflexivity|].
+  simpl. rewrite IH by (intros X; apply H; right; exact X).
+  apply lookup_insert_other. intros ->. apply H. left. reflexivity.
+Qed.
+
+Lemma lookup_fold_insert {A} (l : list (bytes * A)) k v : forall acc,
+  NoDup (map fst l) -> In (k, v) l ->
+  lookup k (fold_left (fun acc kv => insert (fst kv) (snd kv) acc) l acc) = Some v.
+Proof.
+  induction l as [|[k' v'] l IH]; intros acc ND Hin; [destruct Hin|].
+  simpl in ND. inversion ND as [|? ? Hni ND']; subst. simpl.
+  destruct Hin as [E|Hin].
+  - inversion E; subst. rewrite lookup_fold_insert_notin by exact Hni. apply lookup_insert_same.
+  - apply IH; assumption.
+Qed.
+
+(* ---------- grouping folds: __op__map_params and the specification's group_kv ---------- *)
+Section GroupFold.
+  Context {A B : Type} (upd : option B -> A -> B).
+  Definition gstep (acc : list (bytes * B)) (kv : bytes * A) : list (bytes * B) :=
+    insert (fst kv) (upd (lookup (fst kv) acc) (snd kv)) acc.
+  Definition gfold (n : bytes) (l : list (bytes * A)) : option B :=
+    fold_left (fun o kv => if beqb n (fst kv) then Some (upd o (snd kv)) else o) l None.
+
+  Lemma keys_insert (k : bytes) (v : B) m :
+    keys (insert k v m) = if mem k (keys m) then keys m else keys m ++ [k].
+  Proof.
+    unfold keys. induction m as [|[k' v'] m IH]; [reflexivity|]. simpl.
+    destruct (beqb k k') eqn:E; simpl; [reflexivity|].
+    rewrite IH. destruct (mem k (map fst m)); reflexivity.
+  Qed.
+
+  Lemma gfold_keys l : keys (fold_left gstep l []) = nodup_first (map fst l).
+  Proof.
+    induction l as [|kv l IH] using rev_ind; [reflexivity|].
+    rewrite fold_left_app, map_app. simpl. rewrite nodup_first_snoc, <- IH.
+    unfold gstep at 1. apply keys_insert.
+  Qed.
+
+  Lemma gfold_lookup l n : lookup n (fold_left gstep l []) = gfold n l.
+  Proof.
+    induction l as [|kv l IH] using rev_ind; [reflexivity|].
+    unfold gfold. rewrite !fold_left_app. simpl. fold (gfold n l).
+    unfold gstep at 1. destruct (beqb n (fst kv)) eqn:E.
+    - apply beqb_eq in E. subst n. rewrite lookup_insert_same, IH. reflexivity.
+    - rewrite lookup_insert_other; [exact IH|]. intros X. subst n. rewrite beqb_refl in E. discriminate.
+  Qed.
+End GroupFold.
+
+Lemma fold_left_ext {A B} (f g : A -> B -> A) l : forall a,
+  (forall a b, f a b = g a b) -> fold_left f l a = fold_left g l a.
+Proof. induction l as [|x l IH]; intros a H; [reflexivity|]. simpl. rewrite H. apply IH, H. Qed.
+
+Lemma named_snoc {A} n (l : list (bytes * A)) kv :
+  named n (l ++ [kv]) = named n l ++ (if beqb n (fst kv) then [snd kv] else []).
+Proof.
+  unfold named. rewrite filter_app, map_app. simpl. destruct (beqb n (fst kv)); reflexivity.
+Qed.
+
+Definition pupd (o : option pgroup) (v : gval) : pgroup :=
+  match o with
+  | Some (POne old) => PMany [old; v]
+  | Some (PMany olds) => PMany (olds ++ [v])
+  | None => POne v
+  end.
+
+Lemma params_fold l : fold_left params_step l [] = fold_left (gstep pupd) l [].
+Proof.
+  apply fold_left_ext. intros acc kv. unfold params_step, gstep, pupd.
+  destruct (lookup (fst kv) acc) as [[old|olds]|]; reflexivity.
+Qed.
+
+Lemma gfold_params n l :
+  gfold pupd n l =
+  match named n l with [] => None | [v] => Some (POne v) | vs => Some (PMany vs) end.
+Proof.
+  induction l as [|kv l IH] using rev_ind; [reflexivity|].
+  unfold gfold. rewrite fold_left_app. simpl. fold (gfold pupd n l).
+  rewrite named_snoc, IH. destruct (beqb n (fst kv)); [|rewrite app_nil_r; reflexivity].
+  destruct (named n l) as [|v [|w r]]; reflexivity.
+Qed.
+
+Definition gupd (o : option aval) (v : aval) : aval :=
+  match o with
+  | Some old => AArr (aval_scalars old ++ aval_scalars v)
+  | None => v
+  end.
+
+Lemma group_fold l : group_kv l = fold_left (gstep gupd) l [].
+Proof.
+  unfold group_kv. apply fold_left_ext. intros acc kv. unfold gstep, gupd.
+  destruct (lookup (fst kv) acc); reflexivity.
+Qed.
+
+Lemma gfold_group n l :
+  gfold gupd n l =
+  match named n l with [] => None | [v] => Some v | vs => Some (AArr (flat_map aval_scalars vs)) end.
+Proof.
+  induction l as [|kv l IH] using rev_ind; [reflexivity|].
+  unfold gfold. rewrite fold_left_app. simpl. fold (gfold gupd n l).
+  rewrite named_snoc, IH. destruct (beqb n (fst kv)); [|rewrite app_nil_r; reflexivity].
+  destruct (named n l) as [|v [|w r]]; simpl.
+  - reflexivity.
+  - rewrite app_nil_r. reflexivity.
+  - rewrite !flat_map_app. simpl. rewrite app_nil_r, <- !app_assoc. reflexivity.
+Qed.
+
+Lemma convert_aval_gval lit v : convert (aval_gval lit v) = aval_obj v.
+Proof. destruct v as [s|l]; [|reflexivity]. destruct s; destruct lit; reflexivity. Qed.
+
+(* ---------- the records of one source against its contributions ---------- *)
+Lemma forall2_pointwise {A B} (R : bytes * A -> B -> Prop) cs (f : bytes -> B) :
+  (forall kv, In kv cs -> R kv (f (fst kv))) -> Forall2 R cs (map f (map fst cs)).
+Proof.
+  induction cs as [|kv cs IH]; intros H; [constructor|].
+  simpl. constructor; [apply H; left; reflexivity|]. apply IH. intros x Hx. apply H. right. exact Hx.
+Qed.
+
+Lemma and_attr_one_rec m k : and_attr_one m k = and_rec k (member m k).
+Proof. unfold and_attr_one, and_rec. destruct (member m k); reflexivity. Qed.
+
+Definition entry_ok (kv : bytes * aval) : bool := name_ok (fst kv) && value_ok (fst kv) (snd kv).
+
+(* &attributes(obj): a data map (sorted keys) or an object literal (its own order) *)
+Lemma sem_spread ord es :
+  forallb entry_ok es = true -> NoDup (map fst es) ->
+  Forall2 rec_sem (contribs (SrcSpread ord es)) (lower_src (SrcSpread ord es)).
+Proof.
+  intros Hok ND. rewrite forallb_forall in Hok.
+  set (items := map (fun kv => (fst kv, aval_obj (snd kv))) es).
+  assert (Hkeys : map fst items = map fst es) by (unfold items; rewrite map_map; reflexivity).
+  assert (Hsem : forall m kv, In kv es -> lookup (fst kv) (m_items m) = Some (aval_obj (snd kv)) ->
+                              rec_sem kv (and_attr_one m (fst kv))).
+  { intros m [k v] Hin Hl. simpl in Hl. rewrite and_attr_one_rec. unfold member. simpl fst. rewrite Hl.
+    specialize (Hok _ Hin). unfold entry_ok in Hok. simpl in Hok.
+    apply andb_true_iff in Hok. destruct Hok as [Hk Hv]. apply sem_and_rec; assumption. }
+  destruct ord; simpl contribs; simpl lower_src; fold items; unfold and_attrs.
+  - (* object literal *)
+    assert (Hmk : map_keys (op_map items) = map fst es).
+    { unfold map_keys, op_map. simpl. rewrite Hkeys. destruct (map fst es) eqn:E; [|reflexivity].
+      unfold keys. destruct items; [reflexivity|discriminate]. }
+    rewrite Hmk. apply forall2_pointwise. intros kv Hin. apply Hsem; [exact Hin|].
+    unfold op_map. simpl. apply lookup_fold_insert; [rewrite Hkeys; exact ND|].
+    unfold items. apply in_map_iff. exists kv. split; [reflexivity|exact Hin].
+  - (* data map *)
+    unfold map_keys, data_map. simpl. unfold keys. rewrite Hkeys, sort_keys_kv.
+    apply forall2_pointwise. intros kv Hin.
+    apply (Permutation_in kv (Permutation_sym (sort_kv_perm es))) in Hin.
+    apply Hsem; [exact Hin|]. simpl. apply NoDup_lookup; [rewrite Hkeys; exact ND|].
+    unfold items. apply in_map_iff. exists kv. split; [reflexivity|exact Hin].
+Qed.
+
+(* a name other than class occurs at most once among the attributes of a mixin call *)
+Lemma mem_filter_none {T} (nm : T -> bytes) (p : bytes -> bool) k atts :
+  p k = true -> mem k (filter p (map nm atts)) = false ->
+  filter (fun t => beqb k (nm t)) atts = [].
+Proof.
+  intros Hp. induction atts as [|t atts IH]; intros H; [reflexivity|]. simpl in *.
+  destruct (beqb k (nm t)) eqn:E.
+  - apply beqb_eq in E. subst k. rewrite Hp in H. simpl in H. rewrite beqb_refl in H. discriminate.
+  - destruct (p (nm t)); [|apply IH, H]. simpl in H. rewrite E in H. apply IH, H.
+Qed.
+
+Lemma nodup_filter_le1 {T} (nm : T -> bytes) (p : bytes -> bool) k atts :
+  p k = true -> nodupb (filter p (map nm atts)) = true ->
+  length (filter (fun t => beqb k (nm t)) atts) <= 1.
+Proof.
+  intros Hp. induction atts as [|t atts IH]; intros H; [simpl; lia|]. simpl in *.
+  destruct (beqb k (nm t)) eqn:E.
+  - apply beqb_eq in E. subst k. rewrite Hp in H. simpl in H.
+    apply andb_true_iff in H. destruct H as [Hm _].
+    rewrite (mem_filter_none nm p (nm t) atts Hp); [simpl; lia|].
+    destruct (mem (nm t) (filter p (map nm atts))); [discriminate|reflexivity].
+  - destruct (p (nm t)); [|apply IH, H]. simpl in H. apply andb_true_iff in H. apply IH, H.
+Qed.
+
+Lemma named_map {T A} (nm : T -> bytes) (val : T -> A) k atts :
+  named k (map (fun t => (nm t, val t)) atts) = map val (filter (fun t => beqb k (nm t)) atts).
+Proof.
+  unfold named. induction atts as [|t atts IH]; [reflexivity|]. simpl.
+  destruct (beqb k (nm t)); simpl; rewrite IH; reflexivity.
+Qed.
+
+Definition att_ok (t : bytes * aval * bool) : bool :=
+  name_ok (fst (fst t)) && value_ok (fst (fst t)) (snd (fst t)).
+
+(* &attributes(attributes) in a mixin: __op__map_params, then __and_attrs over the sorted keys *)
+Lemma sem_mixin atts :
+  forallb att_ok atts = true ->
+  nodupb (filter (fun n => negb (is_class n)) (map (fun t => fst (fst t)) atts)) = true ->
+  Forall2 rec_sem (contribs (SrcMixin atts)) (lower_src (SrcMixin atts)).
+Proof.
+  intros Hok Hnd. rewrite forallb_forall in Hok.
+  simpl contribs. simpl lower_src.
+  set (L' := map (fun t : bytes * aval * bool => (fst (fst t), aval_gval (snd t) (snd (fst t)))) atts).
+  set (L := map fst atts).
+  assert (HL : L = map (fun t : bytes * aval * bool => (fst (fst t), snd (fst t))) atts).
+  { unfold L. apply map_ext. intros [[n v] l]. reflexivity. }
+  assert (Hnames : map fst L' = map fst L).
+  { unfold L', L. rewrite !map_map. reflexivity. }
+  set (m := map_params L').
+  assert (Hkeys : keys (m_items m) = keys (group_kv L)).
+  { unfold m, map_params. simpl. unfold keys at 1. rewrite map_map. simpl.
+    change (map (fun x : bytes * pgroup => fst x) (fold_left params_step L' []))
+      with (keys (fold_left params_step L' [])).
+    rewrite params_fold, group_fold, !gfold_keys, Hnames. reflexivity. }
+  assert (NDG : NoDup (map fst (group_kv L))).
+  { change (map fst (group_kv L)) with (keys (group_kv L)).
+    rewrite group_fold, gfold_keys. apply nodup_first_NoDup. }
+  unfold and_attrs. fold m.
+  assert (Hmk : map_keys m = map fst (sort_kv (group_kv L))).
+  { unfold map_keys. change (m_order m) with (@nil bytes). cbv iota.
+    rewrite Hkeys. unfold keys. apply sort_keys_kv. }
+  rewrite Hmk. apply forall2_pointwise. intros [k v] Hin.
+  apply (Permutation_in _ (Permutation_sym (sort_kv_perm (group_kv L)))) in Hin.
+  pose proof (NoDup_lookup _ _ _ NDG Hin) as HlG.
+  rewrite group_fold, gfold_lookup, gfold_group in HlG.
+  simpl fst. rewrite and_attr_one_rec. unfold member.
+  assert (HlP : lookup k (m_items m) = option_map pgroup_obj (gfold pupd k L')).
+  { unfold m, map_params. simpl. rewrite lookup_map_snd, params_fold, gfold_lookup. reflexivity. }
+  rewrite HlP, gfold_params. clear HlP.
+  pose (F := filter (fun t : bytes * aval * bool => beqb k (fst (fst t))) atts).
+  assert (HnL : named k L = map (fun t => snd (fst t)) F).
+  { rewrite HL. apply (named_map (fun t : bytes * aval * bool => fst (fst t)) (fun t => snd (fst t))). }
+  assert (HnL' : named k L' = map (fun t => aval_gval (snd t) (snd (fst t))) F).
+  { unfold L'. apply (named_map (fun t : bytes * aval * bool => fst (fst t))
+                                 (fun t => aval_gval (snd t) (snd (fst t)))). }
+  rewrite HnL in HlG. rewrite HnL'.
+  assert (HF : forall t, In t F -> name_ok k = true /\ value_ok k (snd (fst t)) = true).
+  { intros t Ht. unfold F in Ht. apply filter_In in Ht. destruct Ht as [Hin' Hb].
+    apply beqb_eq in Hb. specialize (Hok t Hin'). unfold att_ok in Hok. rewrite <- Hb in Hok.
+    apply andb_true_iff in Hok. exact Hok. }
+  assert (Hle : negb (is_class k) = true -> length F <= 1).
+  { intros Hnc. exact (nodup_filter_le1 (fun t : bytes * aval * bool => fst (fst t))
+                                        (fun n => negb (is_class n)) k atts Hnc Hnd). }
+  clearbody F.
+  destruct F as [|t1 [|t2 r]].
+  - discriminate.
+  - simpl in HlG. inversion HlG; subst v. simpl. rewrite convert_aval_gval.
+    destruct (HF t1 (or_introl eq_refl)) as [Hk Hv]. apply sem_and_rec; assumption.
+  - (* a repeated name: only class may repeat *)
+    destruct (is_class k) eqn:C.
+    2:{ exfalso. specialize (Hle eq_refl). simpl in Hle. lia. }
+    set (vs := map (fun t : bytes * aval * bool => snd (fst t)) (t1 :: t2 :: r)) in *.
+    assert (Hv : v = AArr (flat_map aval_scalars vs)).
+    { simpl in HlG. inversion HlG. reflexivity. }
+    assert (Hobj : pgroup_obj (PMany (map (fun t : bytes * aval * bool => aval_gval (snd t) (snd (fst t)))
+                                          (t1 :: t2 :: r))) = OArr (map aval_obj vs)).
+    { unfold pgroup_obj, vs. rewrite !map_map. f_equal. apply map_ext. intros t. apply convert_aval_gval. }
+    change (option_map pgroup_obj
+              (match map (fun t : bytes * aval * bool => aval_gval (snd t) (snd (fst t))) (t1 :: t2 :: r) with
+               | [] => None | [v0] => Some (POne v0) | vs0 => Some (PMany vs0) end))
+      with (Some (pgroup_obj (PMany (map (fun t : bytes * aval * bool => aval_gval (snd t) (snd (fst t)))
+                                         (t1 :: t2 :: r))))).
+    rewrite Hobj.
+    change (and_rec k (OArr (map aval_obj vs)))
+      with {| a_name := k;
+              a_val := if is_class k then class_names (OArr (map aval_obj vs))
+                       else obj_string (OArr (map aval_obj vs));
+              a_esc := true; a_bool := None |}.
+    rewrite C.
+    assert (Hall : Forall (fun v => forallb class_scalar_ok (aval_scalars v) = true) vs).
+    { apply Forall_forall. intros w Hw. unfold vs in Hw. apply in_map_iff in Hw.
+      destruct Hw as [t [<- Ht]]. destruct (HF t Ht) as [_ Hvt]. unfold value_ok in Hvt.
+      rewrite C in Hvt. exact Hvt. }
+    assert (Hvok : forallb class_scalar_ok (aval_scalars v) = true).
+    { rewrite Hv. change (aval_scalars (AArr (flat_map aval_scalars vs))) with (flat_map aval_scalars vs).
+      apply forallb_flat_map. intros w Hw. rewrite Forall_forall in Hall. apply Hall, Hw. }
+    destruct (HF t1 (or_introl eq_refl)) as [Hk _].
+    apply sem_text; [exact Hk| | |intros X; congruence].
+    + rewrite (class_names_group vs Hall), <- Hv. apply no_nul_class_text, Hvok.
+    + intros _. rewrite (class_names_group vs Hall), Hv. reflexivity.
+Qed.
+
+(* ---------- all sources of a tag ---------- *)
+Ltac split3 H Ha Hb Hc :=
+  apply andb_true_iff in H; destruct H as [H Hc];
+  apply andb_true_iff in H; destruct H as [Ha Hb].
+
+Lemma sem_src s : src_ok s = true -> Forall2 rec_sem (contribs s) (lower_src s).
+Proof.
+  destruct s as [n v esc lit|ord es|atts]; intros H.
+  - unfold src_ok in H. apply andb_true_iff in H. destruct H as [H He]. split3 H Hn Hv Hm.
+    simpl. constructor; [|constructor]. apply sem_lower_attr; assumption.
+  - unfold src_ok in H. apply andb_true_iff in H. destruct H as [H ND].
+    apply sem_spread; [|apply nodupb_NoDup, ND].
+    rewrite forallb_forall in *. intros kv Hkv. specialize (H kv Hkv).
+    apply andb_true_iff in H. destruct H as [H _]. split3 H Hn Hv Hm.
+    unfold entry_ok. rewrite Hn. exact Hv.
+  - unfold src_ok in H. apply andb_true_iff in H. destruct H as [H ND].
+    apply sem_mixin; [|exact ND].
+    rewrite forallb_forall in *. intros t Ht. specialize (H t Ht). split3 H Hn Hv Hm.
+    unfold att_ok. rewrite Hn. exact Hv.
+Qed.
+
+Lemma sem_srcs srcs :
+  forallb src_ok srcs = true -> Forall2 rec_sem (flat_map contribs srcs) (lower srcs).
+Proof.
+  induction srcs as [|s srcs IH]; intros H; [constructor|].
+  simpl in H. apply andb_true_iff in H. destruct H as [Hs H].
+  simpl. unfold lower. simpl. apply Forall2_app; [apply sem_src, Hs|apply IH, H].
+Qed.
+
+Lemma src_ok_modelled s : src_ok s = true -> src_modelled s = true.
+Proof.
+  destruct s as [n v esc lit|ord es|atts]; unfold src_ok, src_modelled; intros H.
+  - apply andb_true_iff in H. destruct H as [H He]. split3 H Hn Hv Hm.
+    rewrite Hm. simpl.
+    destruct esc; [reflexivity|]. simpl in *. destruct lit; [|discriminate]. simpl in *.
+    destruct v as [s|l]; [|discriminate]. destruct s; try discriminate. exact He.
+  - apply andb_true_iff in H. destruct H as [H _].
+    rewrite forallb_forall in *. intros kv Hkv. specialize (H kv Hkv).
+    apply andb_true_iff in H. destruct H as [H Hnull]. split3 H Hn Hv Hm.
+    rewrite Hm. exact Hnull.
+  - apply andb_true_iff in H. destruct H as [H _].
+    rewrite forallb_forall in *. intros t Ht. specialize (H t Ht). split3 H Hn Hv Hm. exact Hm.
+Qed.
+
+(* ---------- from the records to the specification ---------- *)
+Lemma sem_names cs rs : Forall2 rec_sem cs rs -> map a_name rs = map fst cs.
+Proof.
+  induction 1 as [|kv a cs rs Hr _ IH]; [reflexivity|].
+  simpl. destruct Hr as [Hn _]. rewrite Hn, IH. reflexivity.
+Qed.
+
+Lemma sem_rec_ok cs rs : Forall2 rec_sem cs rs -> forallb rec_okb rs = true.
+Proof.
+  induction 1 as [|kv a cs rs Hr _ IH]; [reflexivity|].
+  simpl. destruct Hr as [_ [Hok _]]. rewrite Hok, IH. reflexivity.
+Qed.
+
+Definition last_val {A} (n : bytes) (cs : list (bytes * A)) : option A :=
+  fold_left (fun o kv => if beqb n (fst kv) then Some (snd kv) else o) cs None.
+
+Lemma rev_named_last {A} n (cs : list (bytes * A)) :
+  match rev (named n cs) with v :: _ => Some v | [] => None end = last_val n cs.
+Proof.
+  induction cs as [|kv cs IH] using rev_ind; [reflexivity|].
+  unfold last_val. rewrite fold_left_app. simpl. fold (last_val n cs).
+  rewrite named_snoc. destruct (beqb n (fst kv)).
+  - rewrite rev_app_distr. reflexivity.
+  - rewrite app_nil_r. exact IH.
+Qed.
+
+Definition last_rel (n : bytes) (oa : option attr_rec) (ov : option aval) : Prop :=
+  match oa, ov with
+  | Some a, Some v => rec_sem (n, v) a
+  | None, None => True
+  | _, _ => False
+  end.
+
+Lemma sem_last n cs rs : Forall2 rec_sem cs rs -> forall oa ov,
+  last_rel n oa ov ->
+  last_rel n (fold_left (fun o a => if beqb (a_name a) n then Some a else o) rs oa)
+             (fold_left (fun o kv => if beqb n (fst kv) then Some (snd kv) else o) cs ov).
+Proof.
+  induction 1 as [|kv a cs rs Hr _ IH]; intros oa ov Hrel; [exact Hrel|].
+  simpl. apply IH. destruct Hr as [Hn Hrest]. rewrite Hn, (beqb_sym (fst kv) n).
+  destruct (beqb n (fst kv)) eqn:E; [|exact Hrel].
+  apply beqb_eq in E. subst n. unfold last_rel. destruct kv as [k v]. simpl in *.
+  split; [exact Hn|exact Hrest].
+Qed.
+
+Lemma last_val_some {A} n (cs : list (bytes * A)) : In n (map fst cs) -> exists v, last_val n cs = Some v.
+Proof.
+  induction cs as [|kv cs IH] using rev_ind; intros H; [destruct H|].
+  unfold last_val. rewrite fold_left_app. simpl. fold (last_val n cs).
+  destruct (beqb n (fst kv)) eqn:E; [eexists; reflexivity|].
+  apply IH. rewrite map_app in H. apply in_app_or in H. destruct H as [H|[H|[]]]; [exact H|].
+  subst n. rewrite beqb_refl in E. discriminate.
+Qed.
+
+(* a name other than class: the last value given for it *)
+Lemma sem_nonclass n cs rs :
+  Forall2 rec_sem cs rs -> is_class n = false -> In n (map fst cs) ->
+  decode (item_of n (grp n rs)) = olist n (spec_value n cs).
+Proof.
+  intros HF C Hin. rewrite (grp_nonclass n rs C).
+  pose proof (sem_last n cs rs HF None None I) as Hl.
+  fold (last_named n rs) in Hl. fold (last_val n cs) in Hl.
+  destruct (last_val_some n cs Hin) as [v Hv].
+  unfold spec_value. rewrite C.
+  assert (Hs : match rev (named n cs) with v :: _ => value_text n v | [] => None end = value_text n v).
+  { pose proof (rev_named_last n cs) as X. rewrite Hv in X.
+    destruct (rev (named n cs)); [discriminate|]. inversion X. reflexivity. }
+  rewrite Hs. rewrite Hv in Hl. unfold last_rel in Hl.
+  destruct (last_named n rs) as [a|]; [|destruct Hl].
+  destruct Hl as [_ [_ [_ Hnc]]]. apply Hnc. exact C.
+Qed.
+
+Lemma scalar_tokens_nonnil s : forallb nonnil (scalar_tokens s) = true.
+Proof.
+  destruct s as [s|z|b| |]; try reflexivity.
+  - destruct s; reflexivity.
+  - simpl. destruct (show_Z z) eqn:E; [exfalso; exact (show_Z_nonnil z E)|reflexivity].
+Qed.
+
+Lemma class_tokens_nonnil v : forallb nonnil (class_tokens v) = true.
+Proof. unfold class_tokens. apply forallb_flat_map. intros s _. apply scalar_tokens_nonnil. Qed.
+
+Lemma sem_class_pieces n cs rs :
+  is_class n = true -> Forall2 rec_sem cs rs ->
+  map cls_piece (map to_tmp (filter (fun a => beqb (a_name a) n) rs)) =
+  map Some (map (fun v => escape (joinne (class_tokens v))) (named n cs)).
+Proof.
+  intros C. induction 1 as [|kv a cs rs Hr _ IH]; [reflexivity|].
+  destruct Hr as [Hn [_ [Hc _]]]. unfold named in *. simpl.
+  rewrite Hn, (beqb_sym (fst kv) n).
+  destruct (beqb n (fst kv)) eqn:E; [|exact IH].
+  simpl. rewrite IH. f_equal. f_equal. apply Hc. apply beqb_eq in E. rewrite <- E. exact C.
+Qed.
+
+(* class: all values given for it, merged *)
+Lemma sem_class cs rs :
+  Forall2 rec_sem cs rs -> tmp_nodupb (class_recs rs) = true ->
+  decode (item_of (B "class") (grp (B "class") rs)) = olist (B "class") (spec_value (B "class") cs).
+Proof.
+  intros HF ND.
+  destruct (class_accumulates rs) as [_ Hg]. rewrite (Hg ND). clear Hg.
+  unfold item_of. change (is_class (B "class")) with true.
+  rewrite (class_merge _ _ [] (sem_class_pieces (B "class") cs rs eq_refl HF)).
+  change (cat_sp [] ?x) with x.
+  rewrite <- map_map, <- escape_joinne, <- joinne_flat_map.
+  unfold spec_value. change (is_class (B "class")) with true. cbv iota.
+  set (toks := flat_map class_tokens (named (B "class") cs)).
+  assert (Hne : forallb nonnil toks = true).
+  { unfold toks. apply forallb_flat_map. intros v _. apply class_tokens_nonnil. }
+  rewrite <- (join_joinne toks Hne) at 1.
+  destruct toks as [|t toks'] eqn:E; [reflexivity|].
+  assert (Hj : joinne (t :: toks') <> []) by (apply joinne_nonnil; [exact Hne|discriminate]).
+  rewrite (join_joinne _ Hne).
+  pose proof (escape_nonnil _ Hj) as He.
+  assert (Hn : is_nil (escape (joinne (t :: toks'))) = false)
+    by (destruct (escape (joinne (t :: toks'))); [congruence|reflexivity]).
+  rewrite Hn. unfold decode, olist. simpl map. rewrite unesc_escape. reflexivity.
+Qed.
+
+Lemma decode_flat_map {A} (f : A -> list (bytes * bytes)) l :
+  decode (flat_map f l) = flat_map (fun x => decode (f x)) l.
+Proof.
+  unfold decode. induction l as [|x l IH]; [reflexivity|]. simpl. rewrite map_app, IH. reflexivity.
+Qed.
+
+Lemma flat_map_ext_in {A B} (f g : A -> list B) l :
+  (forall x, In x l -> f x = g x) -> flat_map f l = flat_map g l.
+Proof.
+  induction l as [|x l IH]; intros H; [reflexivity|]. simpl.
+  rewrite (H x (or_introl eq_refl)), IH; [reflexivity|]. intros y Hy. apply H. right. exact Hy.
+Qed.
+
+Lemma sem_decode cs rs :
+  Forall2 rec_sem cs rs -> tmp_nodupb (class_recs rs) = true ->
+  decode (rendered_items rs) = spec_of_contribs cs.
+Proof.
+  intros HF ND. rewrite rendered_closed, decode_flat_map, (sem_names cs rs HF).
+  unfold spec_of_contribs. apply flat_map_ext_in. intros n Hn.
+  apply (proj1 (nodup_first_In _ _)) in Hn.
+  change (match spec_value n cs with Some v => [(n, v)] | None => [] end) with (olist n (spec_value n cs)).
+  destruct (is_class n) eqn:C.
+  - apply beqb_eq in C. subst n. apply sem_class; assumption.
+  - apply sem_nonclass; assumption.
+Qed.
+
+(* ---------- C05_spec ---------- *)
+Lemma spec_partial srcs :
+  forallb src_ok srcs = true -> tmp_nodupb (class_recs (lower srcs)) = true ->
+  exists text, model_attrs srcs = Some (Some text) /\ read_attrs text = Some (attr_spec srcs).
+Proof.
+  intros Hok ND.
+  pose proof (sem_srcs srcs Hok) as HF.
+  destruct (grammar (lower srcs) (sem_rec_ok _ _ HF)) as [Hr [_ Hp]].
+  exists (fmt_items (rendered_items (lower srcs))). split.
+  - unfold model_attrs.
+    assert (Hm : forallb src_modelled srcs = true).
+    { rewrite forallb_forall in *. intros s Hs. apply src_ok_modelled, Hok, Hs. }
+    rewrite Hm, Hr. reflexivity.
+  - unfold read_attrs. rewrite Hp. f_equal. apply sem_decode; assumption.
+Qed.
+
+Lemma spec_holds_dom srcs : dom_C05 srcs = true -> spec_holds srcs.
+Proof.
+  unfold dom_C05. intros H. apply andb_true_iff in H. destruct H as [H1 H2].
+  apply spec_partial; assumption.
+Qed.
+
+(* the rendered class attribute in closed form *)
+Lemma class_closed srcs :
+  dom_C05 srcs = true ->
+  item_of (B "class") (grp (B "class") (lower srcs)) =
+  match class_text (named (B "class") (flat_map contribs srcs)) with
+  | [] => []
+  | t => [(B "class", escape t)]
+  end.
+Proof.
+  unfold dom_C05. intros H. apply andb_true_iff in H. destruct H as [Hok ND].
+  pose proof (sem_srcs srcs Hok) as HF.
+  destruct (class_accumulates (lower srcs)) as [_ Hg]. rewrite (Hg ND). clear Hg.
+  unfold item_of. change (is_class (B "class")) with true.
+  rewrite (class_merge _ _ [] (sem_class_pieces (B "class") _ _ eq_refl HF)).
+  change (cat_sp [] ?x) with x.
+  rewrite <- map_map, <- escape_joinne, <- joinne_flat_map. fold (class_text (named (B "class") (flat_map contribs srcs))).
+  destruct (class_text (named (B "class") (flat_map contribs srcs))) as [|c t] eqn:E; [reflexivity|].
+  assert (He : escape (c :: t) <> []) by (apply escape_nonnil; discriminate).
+  destruct (escape (c :: t)); [congruence|reflexivity].
+Qed.
+
+(* ====================================================================== C05_spread_order *)
+Lemma lookup_In {A} (l : list (bytes * A)) k v : lookup k l = Some v -> In (k, v) l.
+Proof.
+  induction l as [|[k' v'] l IH]; simpl; [discriminate|].
+  destruct (beqb k k') eqn:E.
+  - apply beqb_eq in E. subst k'. intros H. inversion H. left. reflexivity.
+  - intros H. right. apply IH, H.
+Qed.
+
+Lemma NoDup_perm_lookup {A} (l l' : list (bytes * A)) k :
+  Permutation l l' -> NoDup (keys l) -> lookup k l = lookup k l'.
+Proof.
+  intros P ND.
+  assert (ND' : NoDup (keys l')) by (apply (Permutation_NoDup (Permutation_map fst P)), ND).
+  destruct (lookup k l) as [v|] eqn:E1.
+  - symmetry. apply NoDup_lookup; [exact ND'|]. apply (Permutation_in _ P), lookup_In, E1.
+  - destruct (lookup k l') as [v'|] eqn:E2; [|reflexivity].
+    apply lookup_In in E2. apply (Permutation_in _ (Permutation_sym P)) in E2.
+    rewrite (NoDup_lookup _ _ _ ND E2) in E1. discriminate.
+Qed.
+
+(* __and_attrs of a map without explicit order does not depend on the iteration order of the Go map *)
+Lemma and_attrs_perm items items' :
+  Permutation items items' -> NoDup (keys items) ->
+  and_attrs (data_map items) = and_attrs (data_map items').
+Proof.
+  intros P ND. unfold and_attrs, map_keys, data_map. simpl.
+  rewrite (sort_bytes_unique (keys items) (keys items')) by (apply Permutation_map, P).
+  apply map_ext. intros k. unfold and_attr_one, member. simpl.
+  rewrite (NoDup_perm_lookup _ _ k P ND). reflexivity.
+Qed.
+
+Lemma spread_order pre post items items' :
+  Permutation items items' -> NoDup (keys items) ->
+  render_attrs (pre ++ and_attrs (data_map items) ++ post) =
+  render_attrs (pre ++ and_attrs (data_map items') ++ post).
+Proof. intros P ND. rewrite (and_attrs_perm _ _ P ND). reflexivity. Qed.
+
+Lemma forallb_perm {A} (f : A -> bool) l l' : Permutation l l' -> forallb f l = forallb f l'.
+Proof.
+  induction 1 as [|x l l' _ IH|x y l|l l' l'' _ IH1 _ IH2]; simpl.
+  - reflexivity.
+  - rewrite IH. reflexivity.
+  - destruct (f x), (f y); reflexivity.
+  - rewrite IH1. exact IH2.
+Qed.
+
+Lemma kv_sorted_unique {A} (l1 : list (bytes * A)) : forall l2,
+  map fst l1 = map fst l2 -> NoDup (map fst l1) -> Permutation l1 l2 -> l1 = l2.
+Proof.
+  induction l1 as [|[k v1] l1 IH]; intros l2 Hk ND P.
+  - destruct l2; [reflexivity|discriminate].
+  - destruct l2 as [|[k2 v2] l2]; [discriminate|]. simpl in Hk. inversion Hk as [[Hk1 Hk2]]. subst k2.
+    simpl in ND. inversion ND as [|? ? Hni ND']; subst.
+    assert (E : v1 = v2).
+    { assert (Hin : In (k, v1) ((k, v2) :: l2)) by (apply (Permutation_in _ P); left; reflexivity).
+      destruct Hin as [Hin|Hin]; [inversion Hin; reflexivity|].
+      exfalso. apply Hni. rewrite Hk2. change k with (fst (k, v1)). apply in_map, Hin. }
+    subst v2. f_equal. apply IH; [exact Hk2|exact ND'|apply (Permutation_cons_inv P)].
+Qed.
+
+Lemma sort_kv_unique {A} (l l' : list (bytes * A)) :
+  Permutation l l' -> NoDup (map fst l) -> sort_kv l = sort_kv l'.
+Proof.
+  intros P ND. apply kv_sorted_unique.
+  - rewrite <- !sort_keys_kv. apply sort_bytes_unique, Permutation_map, P.
+  - apply (Permutation_NoDup (Permutation_map fst (sort_kv_perm l))), ND.
+  - apply perm_trans with l; [apply Permutation_sym, sort_kv_perm|].
+    apply perm_trans with l'; [exact P|apply sort_kv_perm].
+Qed.
+
+(* source level: neither the model nor the specification depends on the order in which the entries of
+   the data map are listed *)
+Lemma spread_order_src pre post es es' :
+  Permutation es es' -> NoDup (map fst es) ->
+  model_attrs (pre ++ SrcSpread false es :: post) = model_attrs (pre ++ SrcSpread false es' :: post)
+  /\ attr_spec (pre ++ SrcSpread false es :: post) = attr_spec (pre ++ SrcSpread false es' :: post).
+Proof.
+  intros P ND. split.
+  - unfold model_attrs.
+    assert (Hm : forallb src_modelled (pre ++ SrcSpread false es :: post) =
+                 forallb src_modelled (pre ++ SrcSpread false es' :: post)).
+    { rewrite !forallb_app. simpl. rewrite (forallb_perm _ _ _ P). reflexivity. }
+    rewrite Hm. destruct (forallb src_modelled (pre ++ SrcSpread false es' :: post)); [|reflexivity].
+    f_equal. unfold lower. rewrite !flat_map_app. simpl.
+    apply spread_order.
+    + apply Permutation_map, P.
+    + unfold keys. rewrite map_map. exact ND.
+  - unfold attr_spec. rewrite !flat_map_app. simpl. rewrite (sort_kv_unique _ _ P ND). reflexivity.
+Qed.
+
+(* before the repair F-C05-c (Keys() ranged over the Go map) the same statement is false *)
+Lemma spread_order_unrepaired_refuted :
+  exists items items',
+    Permutation items items' /\ NoDup (keys items) /\
+    render_attrs (and_attrs_iter (data_map items)) <> render_attrs (and_attrs_iter (data_map items')).
+Proof.
+  exists [(B "a", OStr (B "1")); (B "b", OStr (B "2"))], [(B "b", OStr (B "2")); (B "a", OStr (B "1"))].
+  split; [apply perm_swap|]. split.
+  - apply nodupb_NoDup. vm_compute. reflexivity.
+  - vm_compute. intros H. discriminate H.
+Qed.
+
+(* ====================================================================== examples and refutations *)
+(* repeated class sources (shorthand, attribute, array with false / null / empty entries), a boolean,
+   a number, and a data map with five keys listed in a non-sorted order *)
+Definition ex_srcs2 : list asrc :=
+  [ SrcAttr (B "class") (AOne (SStr (B "btn"))) false true;
+    SrcAttr (B "id") (AOne (SStr (B "a<b"))) true false;
+    SrcAttr (B "class") (AArr [SStr (B "x"); SBool false; SNull; SStr []; SNum 3; SUndef; SStr (B "y&z")]) true false;
+    SrcAttr (B "checked") (AOne (SBool true)) true true;
+    SrcAttr (B "disabled") (AOne (SBool false)) true true;
+    SrcAttr (B "n") (AOne (SNum 42)) true true;
+    SrcAttr (B "id") (AOne (SStr (B "it's"))) true true;
+    SrcAttr (B "class") (AOne SNull) true false;
+    SrcSpread false [(B "k4", AOne (SStr (B """q"""))); (B "class", AArr [SStr (B "w"); SBool false]);
+                     (B "k1", AOne SNull); (B "a", AOne (SNum (-7))); (B "k3", AOne (SBool true))] ].
+
+Example ex2_dom : dom_C05 ex_srcs2 = true.
+Proof. vm_compute. reflexivity. Qed.
+
+Example ex2_model :
+  model_attrs ex_srcs2 =
+  Some (Some (B " class=""btn x 3 y&amp;z w"" id=""it&#39;s"" checked=""checked"" n=""42"" a=""-7"" k3=""k3"" k4=""&#34;q&#34;""")).
+Proof. vm_compute. reflexivity. Qed.
+
+Example ex2_spec :
+  attr_spec ex_srcs2 =
+  [(B "class", B "btn x 3 y&z w"); (B "id", B "it's"); (B "checked", B "checked"); (B "n", B "42");
+   (B "a", B "-7"); (B "k3", B "k3"); (B "k4", B """q""")].
+Proof. vm_compute. reflexivity. Qed.
+
+Example ex2_spec_holds : spec_holds ex_srcs2.
+Proof. exact (spec_holds_dom ex_srcs2 ex2_dom). Qed.
+
+Example ex_spec_holds_thm : spec_holds ex_srcs.
+Proof. exact (spec_holds_dom ex_srcs ex_dom). Qed.
+
+(* a mixin call with a repeated class attribute and an object literal spread *)
+Definition ex_srcs3 : list asrc :=
+  [ SrcAttr (B "class") (AOne (SStr (B "own"))) false true;
+    SrcMixin [(B "class", AOne (SStr (B "k")), true); (B "t", AOne (SBool true), true);
+              (B "class", AArr [SStr (B "l"); SBool false; SStr (B "m")], false); (B "n", AOne (SNum 4), true);
+              (B "class", AOne (SNum 5), true); (B "f", AOne SNull, true); (B "b", AOne (SStr (B "<")), false)] ].
+
+Example ex3_dom : dom_C05 ex_srcs3 = true.
+Proof. vm_compute. reflexivity. Qed.
+
+Example ex3_model :
+  model_attrs ex_srcs3 = Some (Some (B " class=""own k l m 5"" b=""&lt;"" n=""4"" t=""t""")).
+Proof. vm_compute. reflexivity. Qed.
+
+Example ex3_spec_holds : spec_holds ex_srcs3.
+Proof. exact (spec_holds_dom ex_srcs3 ex3_dom). Qed.
+
+Definition ex_srcs4 : list asrc :=
+  [ SrcAttr (B "z") (AOne (SStr (B "1"))) true true;
+    SrcSpread true [(B "k2", AOne (SStr (B "b"))); (B "class", AOne (SStr (B "c"))); (B "k1", AOne SUndef);
+                    (B "a", AOne (SNum 7)); (B "z", AOne (SBool false))] ].
+
+Example ex4_dom : dom_C05 ex_srcs4 = true.
+Proof. vm_compute. reflexivity. Qed.
+
+Example ex4_model : model_attrs ex_srcs4 = Some (Some (B " k2=""b"" class=""c"" a=""7""")).
+Proof. vm_compute. reflexivity. Qed.
+
+(* the order in which a data map's entries are listed does not show *)
+Example ex_spread_order :
+  model_attrs [SrcSpread false [(B "k4", AOne (SStr (B "4"))); (B "class", AOne (SStr (B "w"))); (B "k1", AOne (SNum 1));
+                                (B "a", AOne (SBool true)); (B "k3", AOne SNull)]]
+  = model_attrs [SrcSpread false [(B "k3", AOne SNull); (B "a", AOne (SBool true)); (B "k1", AOne (SNum 1));
+                                  (B "class", AOne (SStr (B "w"))); (B "k4", AOne (SStr (B "4")))]]
+  /\ model_attrs [SrcSpread false [(B "k4", AOne (SStr (B "4"))); (B "class", AOne (SStr (B "w"))); (B "k1", AOne (SNum 1));
+                                   (B "a", AOne (SBool true)); (B "k3", AOne SNull)]]
+     = Some (Some (B " a=""a"" class=""w"" k1=""1"" k4=""4""")).
+Proof. vm_compute. split; reflexivity. Qed.
+
+Ltac refute_spec :=
+  let text := fresh "text" in let Hm := fresh "Hm" in let Hr := fresh "Hr" in
+  intros [text [Hm Hr]]; vm_compute in Hm; inversion Hm; subst text; vm_compute in Hr; discriminate Hr.
+
+(* F-C05-d (listed): without the restriction of unescaped attributes to string literals the statement is false:
+   a(href!=u) with u = "u" renders href="" *)
+Lemma spec_refuted_unescaped :
+  exists srcs, forallb src_ok_d srcs = true /\ tmp_nodupb (class_recs (lower srcs)) = true /\ ~ spec_holds srcs.
+Proof.
+  exists [SrcAttr (B "href") (AOne (SStr (B "u"))) false false].
+  split; [vm_compute; reflexivity|]. split; [vm_compute; reflexivity|]. refute_spec.
+Qed.
+
+Example ex_unescaped_witness :
+  model_attrs [SrcAttr (B "href") (AOne (SStr (B "u"))) false false] = Some (Some (B " href="""""))
+  /\ attr_spec [SrcAttr (B "href") (AOne (SStr (B "u"))) false false] = [(B "href", B "u")].
+Proof. vm_compute. split; reflexivity. Qed.
+
+(* without the hypothesis that no class entry repeats an earlier one verbatim the statement is false:
+   .a.a renders class="a" (the explicit duplicate test in __attrs), the property demands class="a a" *)
+Lemma spec_refuted_dup_class :
+  exists srcs, forallb src_ok srcs = true /\ tmp_nodupb (class_recs (lower srcs)) = false /\ ~ spec_holds srcs.
+Proof.
+  exists [SrcAttr (B "class") (AOne (SStr (B "a"))) false true; SrcAttr (B "class") (AOne (SStr (B "a"))) false true].
+  split; [vm_compute; reflexivity|]. split; [vm_compute; reflexivity|]. refute_spec.
+Qed.
+
+Example ex_dup_class_witness :
+  let srcs := [SrcAttr (B "class") (AOne (SStr (B "a"))) false true; SrcAttr (B "class") (AOne (SStr (B "a"))) false true] in
+  model_attrs srcs = Some (Some (B " class=""a""")) /\ attr_spec srcs = [(B "class", B "a a")].
+Proof. vm_compute. split; reflexivity. Qed.
+
+(* the other restrictions of the domain are needed as well *)
+(* class=true: rendered as the boolean attribute class="class"; in an array as the word true *)
+Example ex_class_true_outside_domain :
+  let s1 := [SrcAttr (B "class") (AOne (SBool true)) true true] in
+  let s2 := [SrcAttr (B "class") (AArr [SStr (B "a"); SBool true]) true true] in
+  dom_C05 s1 = false /\ model_attrs s1 = Some (Some (B " class=""class""")) /\ attr_spec s1 = []
+  /\ dom_C05 s2 = false /\ model_attrs s2 = Some (Some (B " class=""a true""")) /\ attr_spec s2 = [(B "class", B "a")]
+  /\ ~ spec_holds s1 /\ ~ spec_holds s2.
+Proof.
+  cbv zeta. repeat (split; [vm_compute; reflexivity|]). split; refute_spec.
+Qed.
+
+(* a NUL byte in a value: template.HTMLEscapeString writes U+FFFD *)
+Example ex_nul_outside_domain :
+  let s := [SrcAttr (B "title") (AOne (SStr ["a"%char; zero; "b"%char])) true false] in
+  dom_C05 s = false
+  /\ model_attrs s = Some (Some (B " title=""a" ++ [ascii_of_N 239; ascii_of_N 191; ascii_of_N 189] ++ B "b"""))
+  /\ ~ spec_holds s.
+Proof.
+  cbv zeta. repeat (split; [vm_compute; reflexivity|]). refute_spec.
+Qed.
+
+(* an array as the value of a name other than class is printed joined by spaces; the property says nothing about it *)
+Example ex_array_nonclass_outside_domain :
+  let s := [SrcAttr (B "title") (AArr [SStr (B "a"); SStr (B "b")]) true false] in
+  dom_C05 s = false /\ model_attrs s = Some (Some (B " title=""a b""")) /\ attr_spec s = [] /\ ~ spec_holds s.
+Proof.
+  cbv zeta. repeat (split; [vm_compute; reflexivity|]). refute_spec.
+Qed.
